@@ -5880,9 +5880,14 @@ class Lifter_X86_16(Lifter):
                         for irblock in extra_ir]
 
         cond_bloc = []
-        cond_bloc.append(m2_expr.ExprAssign(c_reg,
-                                         c_reg - m2_expr.ExprInt(1,
-                                                                 c_reg.size)))
+        new_c_reg = c_reg - m2_expr.ExprInt(1, c_reg.size)
+        if instr.mode == 64 and admode == 32:
+            # 32 bit counter in 64 bit mode: writing ECX clears the upper
+            # half of RCX
+            cond_bloc.append(m2_expr.ExprAssign(mRCX[instr.mode],
+                                             new_c_reg.zeroExtend(64)))
+        else:
+            cond_bloc.append(m2_expr.ExprAssign(c_reg, new_c_reg))
         cond_bloc.append(m2_expr.ExprAssign(self.IRDst, m2_expr.ExprCond(c_cond,
                                                                       loc_skip_expr,
                                                                       loc_do_expr)))
